@@ -362,6 +362,46 @@ fn saturate<T: Num>(out: &mut Shards, tname: &str, max: u64) {
     }
 }
 
+/// scaling down to nothing, and merges whose totals sum exactly to the largest value of the type
+fn edge_scaling<T: Num + UnsignedCountMinValue>(out: &mut Shards, tname: &str, max: u64) {
+    let r = catch(std::panic::AssertUnwindSafe(|| {
+        out.next_run(&format!("cm-edge-{tname}"));
+        let (d, w, seed) = (2u8, 5u32, 9001u64);
+        let seeds = row_seeds(seed, d);
+        let mk = || Cm::<T> { sk: CountMinSketch::<T>::with_seed(d, w, seed), seeds: seeds.clone() };
+        let (mut a, mut b) = (mk(), mk());
+        out.ev(json!({"op":"CNew","id":0,"d":d,"w":w}));
+        out.ev(json!({"op":"CNew","id":1,"d":d,"w":w}));
+        let upd = |c: &mut Cm<T>, out: &mut Shards, id: usize, it: u64, wt: u64| {
+            c.sk.update_with_weight(it, T::of(wt));
+            out.ev(json!({"op":"CUpd","id":id,"x":it,"b":buckets(it, &seeds, w),"wt":wt,"est":c.sk.estimate(it).val(),"tot":c.sk.total_weight().val()}));
+        };
+        // total 1, halved: everything is zero afterwards
+        upd(&mut a, out, 0, 7, 1);
+        a.sk.halve();
+        out.ev(json!({"op":"CHalve","id":0,"tot":a.sk.total_weight().val()}));
+        chk(out, 0, &a, &[7, 8], d, w);
+        upd(&mut a, out, 0, 7, 2);
+        chk(out, 0, &a, &[7, 8], d, w);
+        // total 7 decayed by 1/8
+        upd(&mut a, out, 0, 9, 5);
+        a.sk.decay(0.125);
+        out.ev(json!({"op":"CDecay","id":0,"num":1,"den":8,"tot":a.sk.total_weight().val()}));
+        chk(out, 0, &a, &[7, 9], d, w);
+        // totals that sum exactly to the type's maximum
+        let have = a.sk.total_weight().val() as u64;
+        upd(&mut a, out, 0, 7, max - 10 - have);
+        upd(&mut b, out, 1, 9, 10);
+        let other = b.sk.clone();
+        a.sk.merge(&other);
+        out.ev(json!({"op":"CMerge","id":0,"src":1,"tot":a.sk.total_weight().val()}));
+        chk(out, 0, &a, &[7, 9], d, w);
+    }));
+    if let Err(e) = r {
+        out.ev(json!({"op":"Panic","in":"scenario","key":e.split(": ").next().unwrap_or(""),"msg":e}));
+    }
+}
+
 /// the same for the 64-bit types, on limbs
 fn saturate_wide<T: WideNum>(out: &mut Shards, tname: &str) {
     let r = catch(std::panic::AssertUnwindSafe(|| {
@@ -459,6 +499,9 @@ pub fn record(args: &Args) {
     saturate::<i8>(&mut out, "i8", i8::MAX as u64);
     saturate::<u16>(&mut out, "u16", u16::MAX as u64);
     saturate::<i16>(&mut out, "i16", i16::MAX as u64);
+    edge_scaling::<u8>(&mut out, "u8", u8::MAX as u64);
+    edge_scaling::<u16>(&mut out, "u16", u16::MAX as u64);
+    edge_scaling::<u32>(&mut out, "u32", 1 << 30);
     saturate_wide::<u64>(&mut out, "u64");
     saturate_wide::<i64>(&mut out, "i64");
     merge_refusals(&mut out);
